@@ -66,19 +66,17 @@ def aimed_pairs(rng, ty, op, n):
     return out
 
 
-def arith_cases(ctx):
+def arith_case_chunks(ctx, aimed=None):
+    """one chunk per function: the whole boundary grid (all pairs) + aimed operands"""
     full = ctx.tier == 'thorough'
-    cases = []
     for ty, (lo, hi, bits) in TYPES.items():
         ks = range(0, bits + 1) if full else [k for k in (0, 1, 2, 3, 7, 8, 15, 16, 17, 30, 31, 32, 33, 47, 62, 63, 64) if k <= bits]
         g = grid(ty, ks)
         for op in OPS:
-            for a in g:
-                for b in g:
-                    cases.append({'part': 'arith', 'ty': ty, 'op': op, 'a': a, 'b': b, 'src': 'grid'})
-            for a, b in aimed_pairs(ctx.rng, ty, op, ctx.budget(1500, 60000)):
+            cases = [{'part': 'arith', 'ty': ty, 'op': op, 'a': a, 'b': b, 'src': 'grid'} for a in g for b in g]
+            for a, b in aimed_pairs(ctx.rng, ty, op, aimed if aimed is not None else ctx.budget(3000, 20000)):
                 cases.append({'part': 'arith', 'ty': ty, 'op': op, 'a': a, 'b': b, 'src': 'aimed'})
-    return cases
+            yield cases
 
 
 BUILDS = [
@@ -114,15 +112,18 @@ def run_lines(binary, lines, timeout=900):
     return out
 
 
-def run_driver_par(drv, qs, jobs=8):
-    """the extracted model on Coq's binary integers is slow per call; split over processes"""
-    if len(qs) < 4000:
+def run_driver_par(drv, qs, jobs=16):
+    """the extracted model works on Coq's binary integers and on lists: slow per call, so the questions are
+    dealt round-robin to several driver processes (long sequences then spread evenly)"""
+    if len(qs) < 64:
         return common.run_driver(drv, qs)
-    n = (len(qs) + jobs - 1) // jobs
-    chunks = [qs[i:i + n] for i in range(0, len(qs), n)]
+    parts = [qs[i::jobs] for i in range(jobs)]
     with ThreadPoolExecutor(jobs) as ex:
-        parts = list(ex.map(lambda c: common.run_driver(drv, c, timeout=3000), chunks))
-    return [x for p in parts for x in p]
+        outs = list(ex.map(lambda c: common.run_driver(drv, c, timeout=3000) if c else [], parts))
+    ans = [None] * len(qs)
+    for i, o in enumerate(outs):
+        ans[i::jobs] = o
+    return ans
 
 
 def arith_signature(c, obs, path):
@@ -140,36 +141,38 @@ def in_range(c):
 def eval_arith(ctx, cases, res, impl, drv):
     if not cases:
         return
-    bins = build_arith(ctx, impl)
+    if not hasattr(ctx, 'c20_arith_bins'):
+        ctx.c20_arith_bins = build_arith(ctx, impl)
+    bins = ctx.c20_arith_bins
     # the model (translated fallback), once per case
     mq = ['ar %s %s %d %d' % (c['ty'], c['op'], c['a'], c['b']) for c in cases]
-    model = run_driver_par(drv, mq)
-    for c, m in zip(cases, model):
-        if m.startswith('EXN') or m == 'BAD':
-            res.tie_errors.append('driver: %s on %r' % (m, c))
-            return
     obs_all = []
     for name, binary, traps in bins:
         for path in ('f', 'b'):
             lines = ['%s %s %s %d %d' % (path, c['ty'], c['op'], c['a'], c['b']) for c in cases]
             obs_all.append((name, traps, path, run_lines(binary, lines)))
-    # oracle on every observation (fallback and builtin path, every build)
-    oq = []
+    # oracle on every observation (fallback and builtin path, every build); identical observations of a case are asked once
+    oq, oidx = [], {}
     for name, traps, path, obs in obs_all:
-        for c, o in zip(cases, obs):
-            oq.append('arok %s %s %d %d %s' % (c['ty'], c['op'], c['a'], c['b'], o if o[0] in '01T' and not o.startswith('NONDET') else 'T'))
-    oks = run_driver_par(drv, oq)
-    pos = 0
+        for i, o in enumerate(obs):
+            key = (i, o)
+            if key not in oidx:
+                oidx[key] = len(oq)
+                c = cases[i]
+                oq.append('arok %s %s %d %d %s' % (c['ty'], c['op'], c['a'], c['b'], o if (o[:1] in ('0', '1', 'T') and not o.startswith('NONDET')) else 'T'))
+    ans = run_driver_par(drv, mq + oq)
+    model, oks = ans[:len(mq)], ans[len(mq):]
+    for c, m in zip(cases, model):
+        if m.startswith('EXN') or m == 'BAD':
+            res.tie_errors.append('driver: %s on %r' % (m, c))
+            return
     for name, traps, path, obs in obs_all:
-        for c, o, m in zip(cases, obs, model):
-            ok = oks[pos]
-            pos += 1
+        for i, (c, o, m) in enumerate(zip(cases, obs, model)):
+            ok = oks[oidx[(i, o)]]
             res.evaluations += 1
-            if path == 'f':
+            if path == 'f' and (traps or m != 'T') and o != m:
                 # translator validation: compiled fallback = translated fallback
-                if traps or m != 'T':
-                    if o != m:
-                        res.disagreements.append({'case': c, 'build': name, 'model': m, 'impl': o})
+                res.disagreements.append({'case': c, 'build': name, 'model': m, 'impl': o})
             if ok != '1':
                 res.oracle_failures.append({
                     'case': dict(c, path=path, build=name), 'signature': arith_signature(c, o, path),
@@ -617,20 +620,21 @@ def eval_map(ctx, cases, res, binary, drv):
         return
     lines = ['map %s %d %s' % (c['kind'], len(c['ops']), ' '.join(c['ops'])) for c in cases]
     impl = run_lines(binary, lines)
-    mq, oq, dq = [], [], []
+    mq, oq = [], []
     for c, o in zip(cases, impl):
         toks = o.split(' ')
         outs = [t.rpartition('@')[0] for t in toks[:-1]]
         mq.append('map %d %s' % (len(c['ops']), ' '.join(c['ops'])))
-        dq.append('mapdisc %d %s' % (len(c['ops']), ' '.join(c['ops'])))
         if len(outs) == len(c['ops']) and all(t and t[0] in 'PNUE' for t in outs):
             oq.append('mapok %d %s %s' % (len(c['ops']), ' '.join(c['ops']), ' '.join(outs)))
         else:
             oq.append('bad')
-    ans = run_driver_par(drv, mq + oq + dq)
+    ans = run_driver_par(drv, mq + oq)
     n = len(cases)
     for i, (c, o) in enumerate(zip(cases, impl)):
-        m, ok, disc = ans[i], ans[n + i], ans[2 * n + i]
+        m, ok = ans[i], ans[n + i]
+        disc = '0' if ok == 'U' else '1'
+        ok = '1' if ok == 'U' else ok
         res.evaluations += 1
         itoks, mtoks = o.split(' '), m.split(' ')
         if mtoks != itoks:
@@ -686,17 +690,74 @@ def load_corpus():
     return cases
 
 
+def env(ctx):
+    if not hasattr(ctx, 'c20_env'):
+        impl = ctx.build_impl()
+        drv = ctx.build_driver('ks', withz=True)
+        ctx.c20_env = (impl, drv, build_containers(ctx, impl, with_map=True))
+    return ctx.c20_env
+
+
+EVAL = {'vec': eval_vec, 'buf': eval_buf, 'map': eval_map}
+
+
 def evaluate(ctx, cases, res):
-    impl = ctx.build_impl()
-    drv = ctx.build_driver('ks', withz=True)
+    impl, drv, binary = env(ctx)
     eval_arith(ctx, [c for c in cases if c['part'] == 'arith'], res, impl, drv)
-    rest = [c for c in cases if c['part'] != 'arith']
-    if rest:
-        binary = build_containers(ctx, impl, with_map=True)
-        eval_vec(ctx, [c for c in rest if c['part'] == 'vec'], res, binary, drv)
-        eval_buf(ctx, [c for c in rest if c['part'] == 'buf'], res, binary, drv)
-        eval_map(ctx, [c for c in rest if c['part'] == 'map'], res, binary, drv)
+    for part, f in EVAL.items():
+        f(ctx, [c for c in cases if c['part'] == part], res, binary, drv)
     return res
+
+
+def shrink(ctx, case, want):
+    """greedy removal of chunks of operations while the failure ('oracle' or 'disagree') persists"""
+    if case['part'] not in EVAL:
+        return case
+    impl, drv, binary = env(ctx)
+
+    def fails(c):
+        r = common.Result()
+        try:
+            EVAL[c['part']](ctx, [c], r, binary, drv)
+        except Exception:
+            return False
+        if want == 'oracle':
+            return bool(r.oracle_failures)
+        if c['part'] == 'map' and not r.distribution.get('map disciplined=1'):
+            return False          # stay inside defined behaviour
+        return bool(r.disagreements)
+    ops = list(case['ops'])
+    budget = 400
+    chunk = max(1, len(ops) // 2)
+    while chunk >= 1 and budget > 0:
+        i = 0
+        while i < len(ops) and budget > 0:
+            cand = ops[:i] + ops[i + chunk:]
+            budget -= 1
+            if cand and fails(dict(case, ops=cand)):
+                ops = cand
+            else:
+                i += chunk
+        chunk //= 2
+    return dict(case, ops=ops)
+
+
+def minimise(ctx, res):
+    """shrink the first oracle failure of every signature and the first disagreement of every part"""
+    seen = set()
+    for f in res.oracle_failures:
+        if f['signature'] in seen or f['case']['part'] not in EVAL:
+            continue
+        seen.add(f['signature'])
+        f['original_length'] = len(f['case']['ops'])
+        f['case'] = shrink(ctx, f['case'], 'oracle')
+    seen = set()
+    for d in res.disagreements:
+        part = d['case']['part']
+        if part in seen or part not in EVAL:
+            continue
+        seen.add(part)
+        d['case'] = shrink(ctx, d['case'], 'disagree')
 
 
 def run(ctx):
@@ -704,24 +765,40 @@ def run(ctx):
     res.rule = ('arith: every pair of the boundary grid {min, min+1, -1, 0, 1, 2, max-1, max, +-2^k, +-2^k+-1} per type and operation '
                 'plus operands aimed at the flip points of the range tests (a+b, a-b around min/max, b around max/a and min/a), each run '
                 'through the portable fallback and the arithmetic.h entry point in three builds; non-trivial = operands not in {0,1}, '
-                'distinct by (type, operation, a, b)')
-    cases = load_corpus() + arith_cases(ctx)
-    cases += [gen_vec(ctx.rng) for _ in range(ctx.budget(600, 30000))]
-    cases += [gen_buf(ctx.rng) for _ in range(ctx.budget(600, 30000))]
-    cases += [gen_map(ctx.rng) for _ in range(ctx.budget(400, 20000))]
-    cases += [gen_map_long(ctx.rng) for _ in range(ctx.budget(6, 200))]
+                'distinct by (type, operation, a, b).  containers: seeded operation sequences; non-trivial = the sequence crosses at '
+                'least two reallocations (vector, buffer) / two bucket expansions and respects the call-site discipline (map), distinct by content')
+    res.assumptions = ['LP64, little-endian (HASH_JEN reads 32-bit words); arithmetic operands restricted to the declared parameter type; '
+                       'allocation never fails for requests below 2^50 bytes and always fails above (no fault injection); '
+                       'map sequences never remove the element the iterator points to (use after free in C)']
+    cases = load_corpus()
+    cases += [gen_vec(ctx.rng) for _ in range(ctx.budget(1500, 30000))]
+    cases += [gen_buf(ctx.rng) for _ in range(ctx.budget(1500, 30000))]
+    cases += [gen_map(ctx.rng) for _ in range(ctx.budget(1000, 20000))]
+    cases += [gen_map_long(ctx.rng) for _ in range(ctx.budget(10, 200))]
+    res.samples = [dict(c, ops=c['ops'][:12] + (['...'] if len(c['ops']) > 12 else [])) for c in cases if c['part'] in EVAL][:3]
     check_call_sites(res)
-    res.samples = [c for c in cases if c.get('src') == 'aimed'][:3]
-    res.assumptions = ['LP64; arithmetic operands restricted to the declared parameter type (the C prototypes enforce it)']
-    evaluate(ctx, cases, res)
+    step = 5000
+    for i in range(0, len(cases), step):
+        evaluate(ctx, cases[i:i + step], res)
+    for chunk in arith_case_chunks(ctx):
+        if len(res.samples) < 6:
+            res.samples.append([c for c in chunk if c['src'] == 'aimed'][0])
+        evaluate(ctx, chunk, res)
+    minimise(ctx, res)
     return res
 
 
 def extended_search(ctx, res, proof):
+    """a proof, the tie or the correspondence broke without an oracle failure in the quick budget: the full
+    boundary grid (every k) for the arithmetic, and ten times the container sequences"""
     ctx.tier = 'thorough'
     try:
         more = common.Result()
-        evaluate(ctx, arith_cases(ctx), more)
+        for chunk in arith_case_chunks(ctx, aimed=5000):
+            evaluate(ctx, chunk, more)
+        cases = [gen_vec(ctx.rng) for _ in range(4000)] + [gen_buf(ctx.rng) for _ in range(4000)] + [gen_map(ctx.rng) for _ in range(3000)]
+        evaluate(ctx, cases, more)
+        minimise(ctx, more)
         return more
     finally:
         ctx.tier = 'quick'
@@ -738,9 +815,9 @@ def replay(ctx, rep):
     print('translators:', errs or 'ok', '| proofs on this tree:', 'ok' if proof['ok'] else 'BROKEN at %s' % proof['failed'])
     res = common.Result()
     evaluate(ctx, [case], res)
-    print('case:', case)
+    print('case:', json.dumps(case))
     for e in res.tie_errors:
         print('tie error:', e)
-    print('disagreements (model vs implementation):', res.disagreements)
-    print('oracle failures (specification vs implementation):', [(f['signature'], f['what']) for f in res.oracle_failures])
+    print('disagreements (model vs implementation):', [{k: v for k, v in d.items() if k != 'case'} for d in res.disagreements])
+    print('oracle failures (specification vs implementation):', [(f['signature'], f['what'], f.get('impl', '')[:200]) for f in res.oracle_failures])
     return 1 if (res.disagreements or res.oracle_failures or res.tie_errors) else 0
